@@ -1,8 +1,8 @@
 package props
 
 import (
-	"go/token"
 	"fmt"
+	"go/token"
 	"go/types"
 	"sort"
 	"strings"
@@ -14,8 +14,8 @@ import (
 
 func init() {
 	register(&Prop{
-		ID:    "C14",
-		Title: "Trait servers give read-your-writes through the full stack",
+		ID:          "C14",
+		Title:       "Trait servers give read-your-writes through the full stack",
 		Explanation: "Scope: every hand-written method under pkg/trait that has the shape of an RPC handler (unary (ctx, *XRequest) (*Y, error) or server-streaming (*XRequest, stream) error), discovered from the type-checked source. R14.1 a request's read_mask reaches resource.WithReadMask / masks.WithFieldMask in the handler (or in the module function the handler hands the request to). R14.2 a streaming request's updates_only reaches resource.WithUpdatesOnly or decides a branch. R14.3 every *_Change message built by a Pull handler takes its name from the request. R14.4 the response of an Update-style handler derives from the result of the model/resource write, never from the request message alone, and each model update method returns the write's result. R14.5 the result of a resource write is not type-asserted before its error is checked (a rejected update is an error, not a nil-interface panic). R14.6 the resource carried by a Pull change is the value of the model's event. update_mask omissions are notes. R14.7 current state is read only under !UpdatesOnly and seeds are built from onUpdate's snapshot. R14.8 an error is reported only when nothing was written. R14.9/R14.10 the bus never drops a live listener, one committed write publishes one event. R14.11 a read mask on an assembled message is applied to the assembled message. R14.12 a gate that waits for the seed also opens without one. Does NOT decide equality of responses, tolerance-based suppression, or the wrapper/router stack (C12/C13).",
 		Assumptions: []string{"generated getters GetX() return field X"},
 		Run:         runC14,
